@@ -199,33 +199,80 @@ func (f *ClosedSetsFinder) findClosedSetOfObjects(done bool) (err error) {
 	return nil
 }
 
+// parentFirstList lists the commits of m - all of them reachable from root
+// through commits of m - so that every commit comes after those of its parents
+// that are in m (depth-first post-order, iterative so that long histories do
+// not grow the goroutine stack).
+func parentFirstList(root string, m map[string]*objects.Commit) *list.List {
+	l := list.New()
+	c, ok := m[root]
+	if !ok {
+		return l
+	}
+	type frame struct {
+		c    *objects.Commit
+		next int
+	}
+	entered := map[string]struct{}{root: {}}
+	stack := []frame{{c, 0}}
+	for len(stack) > 0 {
+		top := &stack[len(stack)-1]
+		if top.next < len(top.c.Parents) {
+			p := string(top.c.Parents[top.next])
+			top.next++
+			if _, ok := entered[p]; ok {
+				continue
+			}
+			if pc, ok := m[p]; ok {
+				entered[p] = struct{}{}
+				stack = append(stack, frame{pc, 0})
+			}
+			continue
+		}
+		l.PushBack(top.c)
+		stack = stack[:len(stack)-1]
+	}
+	return l
+}
+
 func (f *ClosedSetsFinder) enqueueWants(cont func(want string, c *objects.Commit) bool) (err error) {
 	alreadySeenCommits := map[string]struct{}{}
 wantsLoop:
 	for want := range f.Wants {
-		commitList := list.New()
 		tableList := list.New()
 		q := list.New()
 		q.PushBack(commitDepth{[]byte(want), 0})
-		sums := [][]byte{}
+		// every commit is handled once per want: the first time the breadth-first
+		// walk reaches it, which is also along a shortest path from the want
+		visited := map[string]struct{}{}
+		newCommits := map[string]*objects.Commit{}
 		for q.Len() > 0 {
 			cd := q.Remove(q.Front()).(commitDepth)
-			sums = append(sums, cd.sum)
-			if _, ok := alreadySeenCommits[string(cd.sum)]; ok {
+			if _, ok := visited[string(cd.sum)]; ok {
 				continue
 			}
+			visited[string(cd.sum)] = struct{}{}
 			if _, ok := f.commons[string(cd.sum)]; ok {
+				continue
+			}
+			withinDepth := f.depth == 0 || cd.depth < f.depth
+			_, listed := alreadySeenCommits[string(cd.sum)]
+			if listed && (f.depth == 0 || !withinDepth) {
+				// already listed for an earlier want; it is only walked through
+				// again while it is within depth of this want, to select its table
 				continue
 			}
 			c, err := objects.GetCommit(f.db, cd.sum)
 			if err != nil {
 				return err
 			}
-			commitList.PushFront(c)
-			if f.depth == 0 || cd.depth < f.depth {
+			if !listed {
+				newCommits[string(cd.sum)] = c
+			}
+			if withinDepth {
 				tableList.PushFront(c.Table)
 			}
-			if cont != nil && cont(want, c) {
+			if !listed && cont != nil && cont(want, c) {
 				continue wantsLoop
 			}
 			for _, p := range c.Parents {
@@ -233,10 +280,10 @@ wantsLoop:
 			}
 		}
 		// queue is exhausted mean everything is reachable from commons
-		f.commitLists = append(f.commitLists, commitList)
+		f.commitLists = append(f.commitLists, parentFirstList(want, newCommits))
 		f.tableSumLists = append(f.tableSumLists, tableList)
-		for _, sum := range sums {
-			alreadySeenCommits[string(sum)] = struct{}{}
+		for sum := range visited {
+			alreadySeenCommits[sum] = struct{}{}
 		}
 	}
 	f.Wants = map[string]struct{}{}
